@@ -22,8 +22,10 @@ META = {
                   'the case table status x form x method x body sources x preset headers x interface x fault point; '
                   'every case of the table is executed on the real WSGI and ASGI apps and compared with the behaviour '
                   'TLC computed; random responses beyond the table are judged by TLC with the same clause operators.',
-    'level_note': 'Bounded: table of 2.7e4 (quick) / 3.0e5 (thorough) cases, <= 3 stream blocks, <= 2 SSE events; random '
-                  'leg <= 5 blocks, 18 status codes, 6 methods. Stream/send fault points are explored for int-status, '
+    'level_note': 'Bounded: table of 4.6e4 (quick) / 1e6 (thorough) cases, <= 3 stream items (bytes, empty, None), SSE scripts '
+                  'of <= 4 items (events and None pings in every position); random leg <= 5 items, 18 status codes, 6 '
+                  'methods. Extra headers carry str/int/float values through set_header, append_header, set_headers (dict '
+                  'and pairs), a typed property, HTTPStatus(headers=) and (random leg) HTTPError(headers=). Stream/send fault points are explored for int-status, '
                   'plain-header cases, the render-phase fault for every int-status case (all body sources and preset '
                   'headers). After a render-phase fault (the first rendering raises, or the renewed one too) the body belongs '
                   'to the error handler: its content is a D-level detail, its framing (length, events, type) stays P. '
@@ -47,7 +49,7 @@ BODILESS_CODES = (100, 101, 204, 304)
 SPEC_ACTIONS = ['RenderFails', 'SendStart', 'SendBody', 'SendEmpty', 'StreamRead', 'StreamSendChunk', 'CloseStream', 'Eof',
                 'SseNext', 'SseSend']
 VARIANTS = [{'custom': cu, 'extra': ex, 'via': via} for cu in (False, True) for ex in (False, True)
-            for via in ('responder', 'mw_request', 'mw_response')]
+            for via in ('responder', 'mw_request', 'mw_response', 'http_status')]
 
 
 class StreamFault(Exception):
@@ -107,14 +109,15 @@ def media_payload(n):
 
 
 def chunk_payload(i, n):
-    return _pad(b'<S%d:' % i, n)
+    """n > 0: a block of n bytes; 0: an empty block; -1: None"""
+    return None if n < 0 else _pad(b'<S%d:' % i, n)
 
 
 def sse_data(i):
     return b'<E%d>' % i
 
 
-TOKEN = re.compile(rb'<T[^<>]*>|<D[^<>]*>|"<M[^<>]*>"|<S(\d+):[^<>]*>|data: <E(\d+)>\n\n|\{"title": "[^"{}]*"\}')
+TOKEN = re.compile(rb': ping\n\n|<T[^<>]*>|<D[^<>]*>|"<M[^<>]*>"|<S(\d+):[^<>]*>|data: <E(\d+)>\n\n|\{"title": "[^"{}]*"\}')
 ERROR_DOC = {'title': '500 Internal Server Error'}     # what the default handler answers (D-level detail)
 
 
@@ -141,7 +144,7 @@ def pieces_of(body, case):
                 pass
         elif tok[:2] == b'<S':
             i = int(m.group(1))
-            if i < len(case['chunks']) and tok == chunk_payload(i, case['chunks'][i]):
+            if i < len(case['chunks']) and case['chunks'][i] > 0 and tok == chunk_payload(i, case['chunks'][i]):
                 piece = ['stream', i]
         elif tok[:1] == b'{':
             try:
@@ -151,8 +154,12 @@ def pieces_of(body, case):
                 pass
         elif tok[:5] == b'data:':
             i = int(m.group(2))
-            if 0 <= i < case['sse']:
+            if 0 <= i < case['sse'] and case['sk'][i] == 1 and i == len(out):       # every SSE item is one piece
                 piece = ['sse', i]
+        elif tok[:1] == b':':
+            i = len(out)
+            if i < case['sse'] and case['sk'][i] == 0:     # the framework's own comment event for a None item
+                piece = ['ping', i]
         out.append(piece)
         if piece[0] == 'other':
             break
@@ -180,7 +187,7 @@ class _Base:
         self.chunks, self.log, self.fail_at, self.k = chunks, log, fail_at, 0
 
     def _next(self):
-        """next block, None at exhaustion; raises the scheduled fault"""
+        """next item (bytes, or None where the case says so), END at exhaustion; raises the scheduled fault"""
         k = self.k
         self.k += 1
         self.log.begun = True
@@ -188,7 +195,10 @@ class _Base:
         if k == self.fail_at:
             self.log.raised = True
             raise StreamFault('injected at read %d' % k)
-        return self.chunks[k] if k < len(self.chunks) else None
+        return self.chunks[k] if k < len(self.chunks) else END
+
+
+END = object()
 
 
 class SyncIter(_Base):
@@ -197,7 +207,7 @@ class SyncIter(_Base):
 
     def __next__(self):
         b = self._next()
-        if b is None:
+        if b is END:
             raise StopIteration
         return b
 
@@ -211,7 +221,7 @@ class SyncPlain(_Base):            # iterable without close()
 
     def __next__(self):
         b = self._next()
-        if b is None:
+        if b is END:
             raise StopIteration
         return b
 
@@ -219,7 +229,7 @@ class SyncPlain(_Base):            # iterable without close()
 class SyncFile(_Base):
     def read(self, size=-1):
         b = self._next()
-        return b'' if b is None else b
+        return b'' if b is END else b
 
     def close(self):
         self.log.closes += 1
@@ -234,11 +244,11 @@ class AsyncIter(_Base):
     async def __anext__(self):
         await asyncio.sleep(0)
         b = self._next()
-        if b is None:
+        if b is END:
             if self.none_end:
                 return None
             raise StopAsyncIteration
-        return b
+        return b                   # a None item of the case: "the end" as well (nothing is asked for after it)
 
     async def close(self):
         self.log.closes += 1
@@ -248,7 +258,7 @@ class AsyncFile(_Base):
     async def read(self, size=-1):
         await asyncio.sleep(0)
         b = self._next()
-        return b'' if b is None else b
+        return b'' if b is END else b          # a None item: "no data yet"
 
     async def close(self):
         self.log.closes += 1
@@ -258,23 +268,24 @@ async def async_plain(chunks, log, fail_at):          # native async generator: 
     src = _Base(chunks, log, fail_at)
     while True:
         b = src._next()
-        if b is None:
+        if b is END:
             return
         yield b
 
 
-async def sse_emitter(n, log, fail_at):
+async def sse_emitter(script, log, fail_at, ping=None):
+    """script: one entry per item, 1 = an SSEvent, 0 = a keep-alive ping (None)"""
     from falcon.asgi import SSEvent
-    src = _Base([sse_data(i) for i in range(n)], Log(), fail_at)
+    src = _Base([(SSEvent(data=sse_data(i)) if x else ping) for i, x in enumerate(script)], Log(), fail_at)
     while True:
         try:
             b = src._next()
         except StreamFault:
             log.raised = True
             raise
-        if b is None:
+        if b is END:
             return
-        yield SSEvent(data=b)
+        yield b
 
 
 # ------------------------------------------------------------------------------------------------
@@ -314,7 +325,9 @@ def fill(resp, is_asgi):
     case, var, log = CUR['case'], CUR['variant'], CUR['log']
     fail_at = case['fa'] if case['fk'] == 'stream' else -1
     steps = []
-    steps.append(lambda: setattr(resp, 'status', status_value(case)))
+    by_status = var['via'] == 'http_status'        # status, text and some headers travel in a raised falcon.HTTPStatus
+    if not by_status:
+        steps.append(lambda: setattr(resp, 'status', status_value(case)))
     if case['ct']:
         steps.append(lambda: setattr(resp, 'content_type', APP_CT))
     stream = None
@@ -348,7 +361,7 @@ def fill(resp, is_asgi):
                 steps.append(lambda: setattr(resp, 'content_length', case['cl']))
         if stream is not None:
             steps.append(lambda: setattr(resp, 'stream', stream))
-    if case['text'] >= 0:
+    if case['text'] >= 0 and not by_status:
         steps.append(lambda: setattr(resp, 'text', text_payload(case['text'])))
     if case['data'] >= 0:
         steps.append(lambda: setattr(resp, 'data', data_payload(case['data'])))
@@ -360,17 +373,34 @@ def fill(resp, is_asgi):
             else media_payload(case['media'])
         steps.append(lambda: setattr(resp, 'media', media))
     if is_asgi and case['sse'] >= 0:
-        steps.append(lambda: setattr(resp, 'sse', sse_emitter(case['sse'], log, fail_at)))
+        steps.append(lambda: setattr(resp, 'sse', sse_emitter(case['sk'], log, fail_at)))
     if var['extra']:
+        # cookies and extra headers through every route, with the value types applications really pass
+        # (str, int, float): the server must get native strings / byte pairs whatever the route
         steps.append(lambda: resp.set_cookie('sid', 'abc123', max_age=60))
         steps.append(lambda: resp.append_header('X-Extra', 'one'))
-        steps.append(lambda: resp.append_header('X-Extra', 'two'))
+        steps.append(lambda: resp.append_header('X-Extra', 2))
         steps.append(lambda: resp.set_header('Cache-Control', 'no-store'))
+        steps.append(lambda: resp.set_header('X-Attempt', 3))
+        steps.append(lambda: resp.set_headers({'X-RateLimit-Remaining': 41, 'X-Load': 0.5, 'X-Plain': 'v'}))
+        steps.append(lambda: resp.set_headers([('X-Pair-Int', 7), ('X-Pair-Str', 's')]))
+        steps.append(lambda: setattr(resp, 'retry_after', 120))
     order = var.get('order')
     if order:
         steps = _permute(steps, order)
     for s in steps:
         s()
+    if case['fk'] == 'render' and var.get('render_mode') == 'http_error':
+        # the responder gives up after filling the response: handled like a render-phase fault (the response is
+        # re-filled by the handler of HTTPError and rendered), with header values of the error's own
+        import falcon
+        log.renderFailed = True
+        log.renderFails += 1
+        raise falcon.HTTPServiceUnavailable(headers={'Retry-After': 120, 'X-Backoff': 1.5})
+    if by_status:
+        import falcon
+        raise falcon.HTTPStatus(status_value(case), headers={'X-Queue-Position': 7, 'X-Note': 'queued'},
+                                text=text_payload(case['text']) if case['text'] >= 0 else None)
 
 
 def _permute(steps, order):
@@ -390,7 +420,7 @@ def _maybe_render_fault():
     case, var = CUR['case'], CUR['variant']
     log = CUR['log']
     log.renderCalls += 1
-    if case['fk'] == 'render' and var.get('render_mode') != 'media' and log.renderCalls <= case['fa']:
+    if case['fk'] == 'render' and var.get('render_mode') not in ('media', 'http_error') and log.renderCalls <= case['fa']:
         log.renderFailed = True
         log.renderFails += 1
         raise (HandledRenderFault if var.get('err_handler') else RenderFault)('injected: render_body raises')
@@ -416,7 +446,7 @@ def get_app(iface, custom):
 
         class Res:
             def _any(self, req, resp):
-                if CUR['variant']['via'] == 'responder':
+                if CUR['variant']['via'] in ('responder', 'http_status'):
                     fill(resp, False)
             on_get = on_head = on_post = on_put = on_delete = on_patch = _any
 
@@ -442,7 +472,7 @@ def get_app(iface, custom):
 
         class ARes:
             async def _any(self, req, resp):
-                if CUR['variant']['via'] == 'responder':
+                if CUR['variant']['via'] in ('responder', 'http_status'):
                     fill(resp, True)
             on_get = on_head = on_post = on_put = on_delete = on_patch = _any
 
@@ -501,10 +531,13 @@ def _int31(s):
 def execute(case, variant):
     """Run one case on the real framework.  Returns the observation (trace record)."""
     log = Log()
-    CUR['case'], CUR['variant'], CUR['log'] = case, variant, log
     is_asgi = case['iface'] == 'asgi'
-    if case['fk'] == 'render' and variant.get('render_mode') != 'media' and not variant['custom']:
+    if variant['via'] == 'http_status' and (case['data'] >= 0 or case['media'] >= 0 or case['fk'] == 'render'):
+        # handling the raised HTTPStatus resets data and media: the route only expresses cases without them
+        variant = dict(variant, via='responder')
+    if case['fk'] == 'render' and variant.get('render_mode') not in ('media', 'http_error') and not variant['custom']:
         raise MachineryError('a render fault raised by render_body() needs the custom response class')
+    CUR['case'], CUR['variant'], CUR['log'] = case, variant, log
     app = get_app(case['iface'], variant['custom'])
     req = drivers.Req(method=case['method'], target=b'/r')
     ev = []
@@ -655,8 +688,8 @@ def compare_with_behaviour(b, obs):
         P('CloseExactlyOnceOnceBegun', 'stream begun=%r, close() calls=%d' % (obs['begun'], obs['closes']))
     # D-level: the exact event sequence (block boundaries, where the empty blocks are), begun / closes
     same_len = len(spec_ev) == len(obs['ev'])
-    shape_spec = [(e['k'], e['more'], e['n'] if e['src'] != 'sse' else -1) for e in spec_ev]
-    shape_got = [(e['k'], e['more'], e['n'] if (same_len and spec_ev[i]['src'] != 'sse') else -1)
+    shape_spec = [(e['k'], e['more'], e['n'] if e['src'] not in ('sse', 'ping') else -1) for e in spec_ev]
+    shape_got = [(e['k'], e['more'], e['n'] if (same_len and spec_ev[i]['src'] not in ('sse', 'ping')) else -1)
                  for i, e in enumerate(obs['ev'])] if same_len else None
     if shape_spec != shape_got:
         notes.append(('D:events', 'events %r, specification %r' % ([(e['k'], e['more'], e['n']) for e in obs['ev']], shape_spec)))
@@ -702,13 +735,18 @@ def random_case(rng):
     chunks = []
     if kind != 'none':
         for _ in range(rng.choice((0, 1, 1, 2, 2, 3, 4, 5))):
-            chunks.append(0 if (kind != 'file' and rng.random() < 0.12) else rng.randint(6, 40))
+            t = rng.random()
+            # None: "no data yet" from a file-like / "the end" from an async iterator or generator (ASGI only)
+            chunks.append(-1 if (iface == 'asgi' and t < 0.12) else
+                          0 if (kind != 'file' and t < 0.24) else rng.randint(6, 40))
     case = {'iface': iface, 'code': code, 'form': form, 'method': rng.choice(B_METHODS),
             'text': ln(3, 40), 'data': ln(3, 40, 0.6), 'media': ln(5, 30, 0.6, 0.0),
             'stream': kind, 'chunks': chunks,
-            'sse': (rng.choice((0, 1, 2, 3, 4)) if iface == 'asgi' and rng.random() < 0.15 else -1),
+            'sse': (rng.choice((0, 1, 2, 3, 4, 5)) if iface == 'asgi' and rng.random() < 0.15 else -1), 'sk': [],
             'cl': -1 if rng.random() < 0.6 else rng.randint(0, 60), 'ct': rng.random() < 0.3,
             'fk': 'none', 'fa': 0, 'err': -1}
+    if case['sse'] >= 0:
+        case['sk'] = [0 if rng.random() < 0.4 else 1 for _ in range(case['sse'])]
     t = rng.random()
     if t < 0.25:
         case['fk'], case['fa'] = 'stream', rng.randint(0, max(len(chunks), case['sse'], 0) + 1)
@@ -717,12 +755,14 @@ def random_case(rng):
     elif t < 0.65:
         case['fk'], case['fa'] = 'render', rng.choice((1, 1, 2))
     variant = {'custom': rng.random() < 0.3, 'extra': rng.random() < 0.4,
-               'via': rng.choice(('responder', 'responder', 'mw_request', 'mw_response')),
+               'via': rng.choice(('responder', 'responder', 'mw_request', 'mw_response', 'http_status')),
                'set_stream': rng.random() < 0.5, 'cl_header': rng.random() < 0.5, 'none_end': rng.random() < 0.3,
                'plain_list': rng.random() < 0.5, 'order': [rng.randrange(16) for _ in range(rng.randint(0, 10))]}
     if case['fk'] == 'render':
         render_variant(case, variant, rng.random() < 0.5)
         variant['err_handler'] = rng.random() < 0.3          # the application's own handler takes the fault
+        if case['fa'] == 1 and rng.random() < 0.25:
+            variant['render_mode'] = 'http_error'             # the responder raises an HTTPError with headers of its own
     return case, variant
 
 
